@@ -219,7 +219,7 @@ def m_c09(ex):
         out.append(('C09', f"C09|{o}|configuration-object-replaced", ''))
     tb, ta = ex.task_before, ex.task_after
     if tb != ta:
-        for part in ('fields', 'variables', 'data'):
+        for part in ('fields', 'variables', 'data', 'bounds'):
             if tb[part] != ta[part]:
                 out.append(('C09', f"C09|{o}|task.{part}", f"{tb[part]!r:.150} -> {ta[part]!r:.150}"))
     return out
